@@ -67,6 +67,26 @@ def inputs(ctx):
     from . import sccgen
     for k in range(200 if ctx.quick else 5000):
         ins.append({"id": "scc%d" % k, "k": "balanced", "scc": sccgen.popon_program(rng), "doubled": rng.random() < 0.5})
+    # loads whose rows all open with an italic preamble, on adjacent and far-apart rows, one or two
+    # loads per program: italics carried across one, two, three repositionings
+    k = 0
+    for rows_list in ([[2, 8, 14]], [[1, 5, 9, 13]], [[3, 9]], [[3, 9], [2, 12]], [[2, 8, 14], [1, 5, 9]], [[13, 14, 15]],
+                      [[2, 3, 9, 10]], [[4, 8], [4, 8], [4, 8]]):
+        for plain_at in (None, 0, 1):
+            lines = []
+            f = 300
+            for rows in rows_list:
+                syms = [{"k": "ENM"}, {"k": "RCL"}]
+                for j, r in enumerate(rows):
+                    syms.append({"k": "PAC", "r": r, "c": 0, "i": j != plain_at})
+                    syms.append({"k": "CH", "a": sccgen.LETTERS[(r + j) % 20], "b": sccgen.LETTERS[(r + 3 * j) % 20]})
+                syms.append({"k": "EOC"})
+                lines.append({"tc": [0, 0, f // 30, f % 30], "drop": False, "syms": syms})
+                f += 120
+            lines.append({"tc": [0, 0, f // 30, f % 30], "drop": False, "syms": [{"k": "EDM"}]})
+            for doubled in (False, True):
+                ins.append({"id": "sci%d" % k, "k": "balanced", "scc": lines, "doubled": doubled})
+                k += 1
     return ins
 
 
@@ -220,11 +240,11 @@ def execute(inp):
         else:
             kind, text = corpus.docs()[inp["doc"]]
         cs = READERS[kind]().read(text)
-        nodes = []
+        caps = []
         for lg in cs.get_languages():
             for c in cs.get_captions(lg):
-                nodes += project_nodes(c)
-        return {"k": "balanced", "nodes": nodes}
+                caps.append(project_nodes(c))
+        return {"k": "balanced", "caps": caps}
     cs = _set_from_nodes(inp["nodes"])
     hops = []
     for w in inp["route"]:
